@@ -6,7 +6,9 @@
      v3_proto, v3alpha_proto the same structure parsed from the api.proto text
      v3_grpc, v3alpha_grpc   Insights_ServiceDesc, FullMethodName constants, client/server interfaces
      v3_go_enums, v3_go_structs (and v3alpha_) enum constants and protobuf struct tags of api.pb.go (go/ast)
-     resolve_systems         the constants of type System of util/resolve/resolve.go
+     v3_ext_types            types of imported files in use: proto package and Go import path
+     resolve_systems         the constants of type System of package util/resolve (go/ast, all files)
+     resolve_runtime         int(resolve.X) for the four known constants, from the compiled package
    The domain is finite and enumerated completely: each theorem is decided by evaluating a
    boolean checker in the kernel and lifted to the quantified statement by its soundness lemma. *)
 From DepsDev Require Import Lib.Base Api.Desc Api.Desc_proofs Api.GoCode Api.GoCode_proofs Gen.ApiDesc.
@@ -37,14 +39,15 @@ Theorem C17_superset_enums : forall e, In e (fd_enums v3_emb) ->
 Proof. exact (superset_enums _ _ C17_superset). Qed.
 Print Assumptions C17_superset_enums.
 
-(* ... and every v3 RPC: same name, request and response type, streaming flags and HTTP
-   binding (verb, body, additional bindings; path with /v3/ replaced by /v3alpha/). *)
+(* ... and every v3 RPC has a v3alpha RPC of the same name, request and response type,
+   streaming flags and idempotency level, among whose HTTP bindings (pattern and additional
+   bindings) is each binding of the v3 RPC: same verb, body and response body, path with
+   /v3/ replaced by /v3alpha/ (Desc.method_incl; bindings only v3alpha has are allowed). *)
 Theorem C17_superset_methods : forall s, In s (fd_services v3_emb) ->
   exists s', In s' (fd_services v3alpha_emb) /\ s_name s' = s_name s /\
-    forall me, In me (s_methods s) ->
-      In (ren_method (fd_package v3_emb) (fd_package v3alpha_emb)
-                     (api_prefix (fd_package v3_emb)) (api_prefix (fd_package v3alpha_emb)) me)
-         (s_methods s').
+    forall me, In me (s_methods s) -> exists me', In me' (s_methods s') /\
+      method_incl (fd_package v3_emb) (fd_package v3alpha_emb)
+                  (api_prefix (fd_package v3_emb)) (api_prefix (fd_package v3alpha_emb)) me me'.
 Proof. exact (superset_methods _ _ C17_superset). Qed.
 Print Assumptions C17_superset_methods.
 
@@ -59,12 +62,25 @@ Print Assumptions C17_gen_v3alpha.
 
 (* ... also below the descriptor: every enum has its Go type with exactly its constants
    (name and number), and every message (recursively, map entries excepted) has its Go
-   struct whose protobuf tags are, in order, the ones tag.Marshal yields for its fields
-   (GoCode.gocode_spec). *)
+   struct whose tagged fields are, in order, the ones protoc-gen-go derives: Go name
+   (GoCamelCase), Go type expression (fieldGoType), protobuf tag (tag.Marshal), json tag,
+   map key/value tags, one interface field per declared oneof and one wrapper struct per
+   oneof member (GoCode.gocode_spec). *)
 Theorem C17_go_code :
-  gocode_spec v3_emb v3_go_enums v3_go_structs /\ gocode_spec v3alpha_emb v3alpha_go_enums v3alpha_go_structs.
+  gocode_spec v3_emb v3_ext_types v3_go_enums v3_go_structs /\
+  gocode_spec v3alpha_emb v3alpha_ext_types v3alpha_go_enums v3alpha_go_structs.
 Proof. split; apply gocode_ok_sound; vm_compute; reflexivity. Qed.
 Print Assumptions C17_go_code.
+
+(* ... and in _grpc.pb.go: the client method of every rpc passes on that rpc's
+   FullMethodName constant and has the request/response Go types; the ServiceDesc literal
+   binds every method name to its own handler; every handler decodes into the request type,
+   calls exactly its method of the server interface and reports its own FullMethodName
+   (GoCode.grpc_code_spec). *)
+Theorem C17_grpc_code :
+  grpc_code_spec v3_emb v3_ext_types v3_grpc /\ grpc_code_spec v3alpha_emb v3alpha_ext_types v3alpha_grpc.
+Proof. split; apply grpc_code_ok_sound; vm_compute; reflexivity. Qed.
+Print Assumptions C17_grpc_code.
 
 (* Insights_ServiceDesc, the FullMethodName constants and the InsightsClient/InsightsServer
    interfaces list exactly the methods of the service of the descriptor (Desc.grpc_spec). *)
@@ -78,10 +94,17 @@ Theorem C17_system : system_spec v3_emb resolve_systems /\ system_spec v3alpha_e
 Proof. split; apply system_ok_sound; vm_compute; reflexivity. Qed.
 Print Assumptions C17_system.
 
+(* The numbers the compiled package util/resolve gives UnknownSystem, NPM, Maven and PyPI
+   (printed by cmd/resolvesys at run time) are the ones read from the sources: none of
+   them escaped the go/ast reading, whichever file declares it. *)
+Theorem C17_system_runtime : runtime_spec resolve_systems resolve_runtime.
+Proof. apply runtime_ok_sound. vm_compute. reflexivity. Qed.
+Print Assumptions C17_system_runtime.
+
 (* Non-vacuity: the regenerated descriptors are inhabited and the renaming is the intended one. *)
 Example C17_nonvacuous :
   fd_messages v3_emb <> [] /\ fd_enums v3_emb <> [] /\ fd_services v3_emb <> [] /\
-  resolve_systems <> [] /\
+  resolve_systems <> [] /\ resolve_runtime <> [] /\
   ren_type (fd_package v3_emb) (fd_package v3alpha_emb) (fd_package v3_emb ++ [46; 88]) =
     fd_package v3alpha_emb ++ [46; 88].
 Proof. vm_compute. repeat split; discriminate. Qed.
